@@ -44,6 +44,11 @@ CLAIMED = {
                 text="Panic injection at every handler position x event kind x entry point (Channel.Write/Trigger, ctx.Write/Trigger, read-loop scope) x panic value kind x "
                      "forwarding/swallowing exception handlers is executed on the real pipeline and validated by TLC against Pipeline.tla (exception delivery order, once, "
                      "close-or-not, no escape); transport write/flush/read failures are fault actions of Channel.tla (model checked incl. liveness, replayed with faults)."),
+    "C09": dict(engine="channel", design="3/C09", technique="TLA+ model checking (TLC) of message = sequence of low-level writes + counterexample replay on the real channel, head handler and shipped codecs",
+                text="Channel.tla models a message as the sequence of low-level writes its carrier produces; C09_Contiguous is checked for single-write carriers ([]byte, [][]byte, "
+                     "*bytes.Buffer: must hold, any failure is a violation) and for multi-write carriers (chunked io.Reader, multi-write io.WriterTo), where TLC's interleaving "
+                     "counterexample is replayed on the real code and reported as a known finding per carrier; text+delimiter codec pipelines are run on sync and queued channels "
+                     "and the wire is parsed back into frames."),
 }
 NA = {}
 for p in props:
